@@ -2265,7 +2265,8 @@ impl<'store> FindTextSelectionsIter<'store> {
                         //shortcut without buffer
                         self.drain_buffer = true;
                         return Some(handle);
-                    } else {
+                    } else if !self.buffer.contains(&handle) {
+                        //(a member may occur in the reference set more than once, it is returned once)
                         self.buffer.push_back(handle);
                     }
                 } else {
